@@ -123,7 +123,7 @@ pub fn session_case(rng: &mut Rng, out: &mut Out, cfg: &SessionCfg, prop: &str) 
                 let op = Op::Validate(seq.clone());
                 let (r, _) = run_op(&mut m, &op);
                 // EOS inside the sequence ends validation by definition; only judge EOS-free sequences
-                if !seq.contains(&eos) {
+                if !seq.contains(&eos) && extra_eos.map_or(true, |x| !seq.contains(&x)) {
                     let got = r.to_string();
                     if got != format!("(ok {expect})") {
                         viol.push(format!(
